@@ -16,18 +16,17 @@ SPEC = dict(
              'The same three theorems (serialize = spec encoding and never fails for fields in range; spec decoder inverts it; own '
              'parser = spec decoder on every cell the decoder accepts) for every stand-alone wrapper: StateInit, CurrencyCollection, '
              'WalletV3Data, WalletV4Data, HashUpdate, NftItemData, NftItemSaleFees, NftItemSaleData (Spec/Tlb/Wrappers.lean from the '
-             'contracts\' storage layouts, Model/Wrappers.lean from the code). The two half-implemented wrappers are characterised '
-             'exactly: HighloadWalletData.serialize writes the value with old_queries emptied, so the round trip holds iff old_queries '
-             'is empty (c15_highload_round_trip_iff); WalletMessage.serialize is correct, WalletMessage.deserialize returns None on '
-             'every cell (c15_wallet_message_own_parser_stub) -- finding F23. '
+             'contracts\' storage layouts, Model/Wrappers.lean from the code), and also for HighloadWalletData and WalletMessage after '
+             'the repair of F23 (serialize dropped old_queries; WalletMessage.deserialize was a stub): full round trip with queries '
+             'present (c15_highload_round_trip) and own parser = spec decoder (c15_wallet_message_own_parser). '
              'Model = library is checked differentially on a boundary sweep of the joint bit/ref budget and on boundary values of '
              'every wrapper field; the property itself is evaluated on the library against a second, Python transcription of the '
              'schemas (library serialize -> spec decoder; spec encoding -> library parser).',
         level_note='theorems are about the hand model; model = pytoniq-core only on the generated inputs (sampled). Dictionaries '
                    '(extra currencies, library, plugins, old_queries) are optional root references (dictionary contents are C09/C10). '
                    'bits256 fields must be 32 bytes: the library does not check the length (a shorter key serialises to a cell that is '
-                   'not a valid value; shown as an example, outside the property). F23 (HighloadWalletData.old_queries, '
-                   'WalletMessage.deserialize) is a recorded finding with two keys.',
+                   'not a valid value; shown as an example, outside the property). The dictionary a HighloadWalletData cell holds is compared '
+                   'semantically (HashMap.parse for the structure, the spec decoder per value), its root cell being opaque to the theorems.',
         technique='Lean 4 proof (hand model) + differential correspondence with the library'),
     design_ref='DESIGN.md §6 C15',
     rule='boundary sweep: header kind (internal / ext-in / ext-out) x extra-currency dict (0/1/many entries) x state-init shape '
